@@ -141,9 +141,14 @@ def reduce_defaults(prog):
             if cs.callee.name != "reduce" or len(cs.args) != 2 or cs.callee.local:
                 continue
             g, _ = canon.closure_fn(prog, cs.args[1])
-            if g is None or g.terms.ret is None:
+            fr = strip(cs.args[1])
+            if g is None and isinstance(fr, tuple) and fr and fr[0] == "fnref":
+                # a function item as the combining step: `.reduce(Self::or)`
+                op = {"or": "or", "and": "and", "add": "Add", "mul": "Mul"}.get(fr[1].name)
+            elif g is None or g.terms.ret is None:
                 continue
-            op = update_op(g.terms.ret, ("param", 2))
+            else:
+                op = update_op(g.terms.ret, ("param", 2))
             if op is None:
                 continue
             # how is the Option consumed?
